@@ -155,7 +155,7 @@ Record Inv (s : state) : Prop := {
   i_env : forall c x, conns s c = Some x -> alive x = true -> sink x = false ->
           cinc x = incn s (cpeer x) /\ listening s (cpeer x) = true }.
 
-Lemma Inv_init b n : Inv (init b n).
+Lemma Inv_init f b n : Inv (init f b n).
 Proof.
   constructor; cbn; intros; try discriminate; try contradiction; auto; constructor.
 Qed.
@@ -323,6 +323,41 @@ Proof.
   - intros p0. upd_cases; auto. apply NoDup_snoc; auto.
 Qed.
 
+Lemma close_refused_frame s c :
+  nh (close_refused s c) = nh s /\ table (close_refused s c) = table s /\ nextc (close_refused s c) = nextc s /\
+  nextt (close_refused s c) = nextt s /\ listening (close_refused s c) = listening s /\
+  incn (close_refused s c) = incn s /\ calls (close_refused s c) = calls s /\
+  threads (close_refused s c) = threads s /\ closed (close_refused s c) = closed s /\
+  tcp (close_refused s c) = tcp s /\ delivered (close_refused s c) = delivered s /\
+  f11 (close_refused s c) = f11 s.
+Proof.
+  unfold close_refused. destruct (f11 s) eqn:E; [destruct (conns s c)|]; repeat split; cbn; auto.
+Qed.
+
+Lemma close_refused_conns s c c0 x0 :
+  conns s c0 = Some x0 ->
+  exists x', conns (close_refused s c) c0 = Some x' /\ cpeer x' = cpeer x0 /\ cinc x' = cinc x0 /\
+             sink x' = sink x0 /\ alive x' = alive x0 /\ loop x' = loop x0 /\
+             (lclosed x0 = true -> lclosed x' = true) /\ (c0 <> c -> x' = x0).
+Proof.
+  intros H. unfold close_refused. destruct (f11 s); [|exists x0; repeat split; auto].
+  destruct (conns s c) as [x|] eqn:Hx; [|exists x0; repeat split; auto].
+  cbn. upd_cases.
+  - rewrite Hx in H. inv_some. eexists. split; [reflexivity|]. repeat split; auto. congruence.
+  - exists x0. repeat split; auto.
+Qed.
+
+Lemma Inv_close_refused s c x :
+  Inv s -> conns s c = Some x -> (forall e, loop x <> LExited e) -> Inv (close_refused s c).
+Proof.
+  intros I Hx Hl. unfold close_refused. destruct (f11 s); auto. rewrite Hx.
+  eapply (Inv_upd_conn s _ c x (set_lclosed x true)); eauto; try reflexivity; cbn; auto.
+  - intros k Hk. eapply (i_trig _ I); eauto.
+  - apply (i_tfresh _ I).
+  - intros t th Ht. eapply pc_ok_upd_conn; [apply (i_thr _ I _ _ Ht)|reflexivity|reflexivity|].
+    intros x0 Hx0 Hf. rewrite Hx in Hx0. inv_some. auto.
+Qed.
+
 (* ---- one lemma per action --------------------------------------------------------- *)
 
 Ltac thr_unchanged I Hx Hl :=
@@ -378,8 +413,9 @@ Proof.
   destruct (conns s c) as [x|] eqn:Hx; [|discriminate].
   destruct (loop x) eqn:Hl; try discriminate.
   destruct (mem c (table s (cpeer x))); [|discriminate].
-  destruct (closed s); inv_some; auto.
-  eapply (Inv_upd_conn s _ c x (set_loop x LRun)); eauto; upd_conn_side I Hx Hl.
+  destruct (closed s); inv_some.
+  - eapply Inv_close_refused; eauto. intros e He. rewrite Hl in He. discriminate.
+  - eapply (Inv_upd_conn s _ c x (set_loop x LRun)); eauto; upd_conn_side I Hx Hl.
 Qed.
 
 Lemma step_trigger s c s' : Inv s -> step s (ATrigger c) = Some s' -> Inv s'.
@@ -474,8 +510,13 @@ Lemma step_accept s p s' : Inv s -> step s (AAccept p) = Some s' -> Inv s'.
 Proof.
   intros I H. cbv beta iota zeta delta [step new_conn] in H.
   destruct (listening s p) eqn:Hl; [|discriminate].
-  pose proof (Inv_accept s (mkConn p (incn s p) true false false LNone) (negb (closed s)) I) as A.
-  cbn in A. destruct (closed s); cbn in *; inv_some; apply A; auto; intros; try discriminate.
+  pose proof (fun reg => Inv_accept s (mkConn p (incn s p) true false false LNone) reg I) as A. cbn in A.
+  destruct (closed s) eqn:Hc; inv_some.
+  - eapply (Inv_close_refused _ (nextc s) (mkConn p (incn s p) true false false LNone)).
+    + apply (A false); auto; intros; discriminate.
+    + cbn. now rewrite upd_same.
+    + intros; discriminate.
+  - apply (A true); auto; intros; discriminate.
 Qed.
 
 Lemma step_acceptfail s p s' : Inv s -> step s (AAcceptFail p) = Some s' -> Inv s'.
@@ -489,9 +530,13 @@ Lemma step_acceptclosing s b p s' : Inv s -> step s (AAcceptClosing b p) = Some 
 Proof.
   intros I H. cbv beta iota zeta delta [step] in H.
   destruct (listening s p) eqn:Hl; [discriminate|].
-  pose proof (Inv_accept s (mkConn p (incn s p) (negb b) false (negb b) LNone) (negb (closed s)) I) as A.
-  cbn in A. destruct (closed s); cbn in *; inv_some; apply A; auto; intros; try discriminate.
-  all: destruct b; discriminate.
+  pose proof (fun reg => Inv_accept s (mkConn p (incn s p) (negb b) false (negb b) LNone) reg I) as A. cbn in A.
+  destruct (closed s) eqn:Hc; inv_some.
+  - eapply (Inv_close_refused _ (nextc s) (mkConn p (incn s p) (negb b) false (negb b) LNone)).
+    + apply (A false); auto; intros; try discriminate. destruct b; discriminate.
+    + cbn. now rewrite upd_same.
+    + intros; discriminate.
+  - apply (A true); auto; intros; try discriminate. destruct b; discriminate.
 Qed.
 
 (* environment and close: every connection record is mapped, loops untouched *)
@@ -628,11 +673,16 @@ Proof.
       intros Hin. destruct (i_tabc _ I _ _ Hin) as (y & Hy & _). rewrite (i_fresh _ I) in Hy by lia. discriminate.
     + inv_some. apply Inv_set_thread; auto; pc_triv.
   - (* PIdent *)
-    destruct (ident_send s c o); inv_some; apply Inv_set_thread; auto; try pc_triv;
-      try (unfold pc_ok; cbn; exact P).
+    destruct (ident_send s c o); inv_some.
+    + apply Inv_set_thread; auto. unfold pc_ok. cbn. exact P.
+    + destruct P as (x & Hx & Hlx & _).
+      apply Inv_set_thread; [eapply Inv_close_refused; eauto; intros e He; rewrite Hlx in He; discriminate| |pc_triv].
+      destruct (close_refused_frame s c) as (_&_&_&Hn&_). now rewrite Hn.
   - (* PReg *)
     destruct P as (x & Hx & Hlx & Hpx & Hni).
-    destruct (closed s); inv_some; [apply Inv_set_thread; auto; pc_triv|].
+    destruct (closed s); inv_some.
+    { apply Inv_set_thread; [eapply Inv_close_refused; eauto; intros e He; rewrite Hlx in He; discriminate| |pc_triv].
+      destruct (close_refused_frame s c) as (_&_&_&Hn&_). now rewrite Hn. }
     eapply (Inv_tab_append s _ (tpeer th) c x); eauto; try reflexivity.
     + intros e He. rewrite Hlx in He. discriminate.
     + cbn. intros t0 H0. upd_cases; [lia|]. now apply (i_tfresh _ I).
@@ -645,7 +695,9 @@ Proof.
         all: subst; rewrite Hx in Y1; inv_some; congruence.
   - (* PLaunch *)
     destruct P as (x & Hx & Hlx & Hpx).
-    destruct (closed s); inv_some; [apply Inv_set_thread; auto; pc_triv|].
+    destruct (closed s); inv_some.
+    { apply Inv_set_thread; [eapply Inv_close_refused; eauto; intros e He; rewrite Hlx in He; discriminate| |pc_triv].
+      destruct (close_refused_frame s c) as (_&_&_&Hn&_). now rewrite Hn. }
     rewrite Hx, Hlx, Nat.eqb_refl in H. inv_some.
     eapply (Inv_upd_conn s _ c x (set_loop x LRun)); eauto; cbn; try reflexivity; try congruence;
       try solve [rewrite Hlx; reflexivity]; try solve [intros; discriminate].
@@ -696,7 +748,7 @@ Proof.
   - destruct (step s a) as [s1|] eqn:E; [|discriminate]. apply (IH s1 s'); auto. eapply step_inv; eauto.
 Qed.
 
-Corollary reachable_inv b n acts s : run (init b n) acts = Some s -> Inv s.
+Corollary reachable_inv f b n acts s : run (init f b n) acts = Some s -> Inv s.
 Proof. apply run_inv, Inv_init. Qed.
 
 (* ---- the table is clean: exits, notifications ------------------------------------------ *)
@@ -717,40 +769,40 @@ Qed.
    if it left because of an error -- every registered handler was called exactly once,
    in order, with the peer of that connection; a loop that left because the router
    closed called nobody *)
-Theorem table_clean b n acts s c x err :
-  run (init b n) acts = Some s -> conns s c = Some x -> loop x = LExited err ->
+Theorem table_clean f b n acts s c x err :
+  run (init f b n) acts = Some s -> conns s c = Some x -> loop x = LExited err ->
   ~ In c (table s (cpeer x)) /\ lclosed x = true /\
   calls_of c (calls s) = (if err then map (fun k => (k, cpeer x, c)) (seq 0 (nh s)) else []).
 Proof.
-  intros R Hx Hl. pose proof (reachable_inv _ _ _ _ R) as I. repeat split.
+  intros R Hx Hl. pose proof (reachable_inv _ _ _ _ _ R) as I. repeat split.
   - intros H. destruct (i_tabc _ I _ _ H) as (y & Hy & _ & Hn). rewrite Hx in Hy. inv_some.
     eapply Hn; eauto.
   - eapply (i_exitc _ I); eauto.
   - rewrite (i_calls _ I). unfold expected_calls. rewrite Hx, Hl. destruct err; reflexivity.
 Qed.
 
-Corollary handlers_exactly_once b n acts s c x h :
-  run (init b n) acts = Some s -> conns s c = Some x -> loop x = LExited true -> h < nh s ->
+Corollary handlers_exactly_once f b n acts s c x h :
+  run (init f b n) acts = Some s -> conns s c = Some x -> loop x = LExited true -> h < nh s ->
   filter (fun y => fst (fst y) =? h) (calls_of c (calls s)) = [(h, cpeer x, c)].
 Proof.
-  intros R Hx Hl Hh. destruct (table_clean _ _ _ _ _ _ _ R Hx Hl) as (_ & _ & ->).
+  intros R Hx Hl Hh. destruct (table_clean _ _ _ _ _ _ _ _ R Hx Hl) as (_ & _ & ->).
   rewrite filter_calls_seq. cbn [Nat.leb andb Nat.add].
   replace (h <? nh s) with true by (symmetry; apply Nat.ltb_lt; lia). reflexivity.
 Qed.
 
 (* every table entry is a connection under that peer whose loop has not exited *)
-Theorem table_live b n acts s p c :
-  run (init b n) acts = Some s -> In c (table s p) ->
+Theorem table_live f b n acts s p c :
+  run (init f b n) acts = Some s -> In c (table s p) ->
   exists x, conns s c = Some x /\ cpeer x = p /\ forall e, loop x <> LExited e.
-Proof. intros R. apply (i_tabc _ (reachable_inv _ _ _ _ R)). Qed.
+Proof. intros R. apply (i_tabc _ (reachable_inv _ _ _ _ _ R)). Qed.
 
 (* no handler is ever told a peer other than the one of the connection that failed, and
    the number of calls of a connection never exceeds the number of handlers *)
-Theorem calls_name_the_peer b n acts s h p c :
-  run (init b n) acts = Some s -> In (h, p, c) (calls s) ->
+Theorem calls_name_the_peer f b n acts s h p c :
+  run (init f b n) acts = Some s -> In (h, p, c) (calls s) ->
   exists x, conns s c = Some x /\ cpeer x = p /\ h < nh s.
 Proof.
-  intros R H. pose proof (reachable_inv _ _ _ _ R) as I.
+  intros R H. pose proof (reachable_inv _ _ _ _ _ R) as I.
   assert (H' : In (h, p, c) (calls_of c (calls s))).
   { unfold calls_of. apply filter_In. split; auto. cbn. apply Nat.eqb_refl. }
   rewrite (i_calls _ I) in H'. unfold expected_calls in H'.
@@ -788,14 +840,14 @@ Proof.
     + exists s', x'. cbn in *. repeat split; auto.
 Qed.
 
-Theorem stale_entry_can_leave b n acts s p c x :
-  run (init b n) acts = Some s -> In c (table s p) -> conns s c = Some x -> loop x = LRun ->
+Theorem stale_entry_can_leave f b n acts s p c x :
+  run (init f b n) acts = Some s -> In c (table s p) -> conns s c = Some x -> loop x = LRun ->
   exists s',
     run s (ARecvErr c EClosed :: repeat (ATrigger c) (if closed s then 0 else nh s) ++ [AExit c]) = Some s' /\
     ~ In c (table s' p) /\ (forall q, q <> p -> table s' q = table s q) /\
     listening s' = listening s /\ closed s' = closed s.
 Proof.
-  intros R Hin Hx Hl. pose proof (reachable_inv _ _ _ _ R) as I.
+  intros R Hin Hx Hl. pose proof (reachable_inv _ _ _ _ _ R) as I.
   destruct (i_tabc _ I _ _ Hin) as (y & Hy & Hp & _). rewrite Hx in Hy. inv_some.
   cbn [run]. cbv beta iota zeta delta [step]. rewrite Hx, Hl.
   destruct (closed s) eqn:Hc.
@@ -905,10 +957,10 @@ Qed.
 
 (* Router.Send as one call, from any reachable state, whatever the peers did and whatever
    the kernel does with writes to dead peers: it returns *)
-Theorem send_call_returns b n acts s p msgs o :
-  run (init b n) acts = Some s -> exists r, snd (send_call s p msgs o) = Some r.
+Theorem send_call_returns f b n acts s p msgs o :
+  run (init f b n) acts = Some s -> exists r, snd (send_call s p msgs o) = Some r.
 Proof.
-  intros R. pose proof (reachable_inv _ _ _ _ R) as I.
+  intros R. pose proof (reachable_inv _ _ _ _ _ R) as I.
   unfold send_call. cbv beta iota zeta delta [step].
   set (th := mkThread p msgs (match msgs with [] => PDone RErr | _ => PLookup end)).
   set (s1 := set_threads s (upd (threads s) (nextt s) (Some th)) (S (nextt s))).
@@ -922,10 +974,11 @@ Qed.
 (* ---- what a Send thread leaves alone ---------------------------------------------------- *)
 
 Definition same_conn (x x' : conn) : Prop :=
-  cpeer x' = cpeer x /\ cinc x' = cinc x /\ sink x' = sink x /\ alive x' = alive x /\ lclosed x' = lclosed x.
+  cpeer x' = cpeer x /\ cinc x' = cinc x /\ sink x' = sink x /\ alive x' = alive x /\
+  (lclosed x = true -> lclosed x' = true).
 
 Lemma same_conn_refl x : same_conn x x.
-Proof. repeat split. Qed.
+Proof. repeat split; auto. Qed.
 
 Lemma thread_step_frame s t o s' :
   Inv s -> thread_step s t o = Some s' ->
@@ -1166,8 +1219,8 @@ Qed.
    incarnation -- provided the router is not closed, no connection registered for the peer was
    abandoned unclosed by its previous incarnation (F11), and the transport does not swallow
    writes to dead peers (in-memory transport, or a kernel that refuses: [o = false]). *)
-Theorem resend_after_restart b n acts s p msgs o :
-  run (init b n) acts = Some s ->
+Theorem resend_after_restart f b n acts s p msgs o :
+  run (init f b n) acts = Some s ->
   closed s = false -> listening s p = true ->
   (forall c x, In c (table s p) -> conns s c = Some x -> sink x = false) ->
   (tcp s = false \/ o = false) -> msgs <> [] ->
@@ -1175,7 +1228,7 @@ Theorem resend_after_restart b n acts s p msgs o :
     delivered s' = delivered s ++ D /\ map fst D = msgs /\
     Forall (fun mc => exists x, conns s' (snd mc) = Some x /\ cpeer x = p /\ cinc x = incn s' p /\ sink x = false) D.
 Proof.
-  intros R Hc Hl Hns Hq Hne. pose proof (reachable_inv _ _ _ _ R) as I.
+  intros R Hc Hl Hns Hq Hne. pose proof (reachable_inv _ _ _ _ _ R) as I.
   unfold send_call. cbv beta iota zeta delta [step].
   set (th := mkThread p msgs (match msgs with [] => PDone RErr | _ => PLookup end)).
   set (s1 := set_threads s (upd (threads s) (nextt s) (Some th)) (S (nextt s))).
@@ -1258,13 +1311,13 @@ End Failing.
    error and delivers nothing, as long as no registered connection was abandoned unclosed (F11) and
    either no connection to that peer is registered, or the transport refuses writes to dead
    peers (in-memory transport / the kernel does not buffer: [o = false]). *)
-Theorem send_fails_when_nothing_listens b n acts s p msgs o :
-  run (init b n) acts = Some s -> listening s p = false ->
+Theorem send_fails_when_nothing_listens f b n acts s p msgs o :
+  run (init f b n) acts = Some s -> listening s p = false ->
   (forall c x, In c (table s p) -> conns s c = Some x -> sink x = false) ->
   (table s p = [] \/ tcp s = false \/ o = false) ->
   exists s', send_call s p msgs o = (s', Some RErr) /\ delivered s' = delivered s.
 Proof.
-  intros R Hl Hns Hq. pose proof (reachable_inv _ _ _ _ R) as I.
+  intros R Hl Hns Hq. pose proof (reachable_inv _ _ _ _ _ R) as I.
   unfold send_call. cbv beta iota zeta delta [step].
   set (th := mkThread p msgs (match msgs with [] => PDone RErr | _ => PLookup end)).
   set (s1 := set_threads s (upd (threads s) (nextt s) (Some th)) (S (nextt s))).
@@ -1391,15 +1444,15 @@ Definition abandoned_history : list action :=
    ACrash 0; AAcceptClosing false 0; ALaunchInc 1;
    ARecvErr 0 EEOF; ATrigger 0; AExit 0; ARestart 0].
 
-Definition st_of (o : option state) : state := match o with Some s => s | None => init false 0 end.
+Definition st_of (o : option state) : state := match o with Some s => s | None => init false false 0 end.
 
 Theorem resend_abandoned_refuted :
-  exists s s', run (init false 1) abandoned_history = Some s /\
+  exists s s', run (init false false 1) abandoned_history = Some s /\
     closed s = false /\ listening s 0 = true /\ table s 0 = [1] /\
     send_call s 0 [2] false = (s', Some ROk) /\ delivered s' = delivered s.
 Proof.
-  exists (st_of (run (init false 1) abandoned_history)).
-  exists (fst (send_call (st_of (run (init false 1) abandoned_history)) 0 [2] false)).
+  exists (st_of (run (init false false 1) abandoned_history)).
+  exists (fst (send_call (st_of (run (init false false 1) abandoned_history)) 0 [2] false)).
   split; [vm_compute; reflexivity|].
   split; [vm_compute; reflexivity|].
   split; [vm_compute; reflexivity|].
@@ -1411,7 +1464,7 @@ Qed.
 (* the same history with the repaired peer (it closes the refused connection): the Send reconnects
    and delivers to the new incarnation *)
 Example resend_repaired_example :
-  exists s s', run (init false 1)
+  exists s s', run (init true false 1)
                  [ASpawn 0 [1]; AStep 0 false; AStep 0 false; AStep 0 false; AStep 0 false; AStep 0 false; AStep 0 false;
                   ACrash 0; AAcceptClosing true 0; ALaunchInc 1;
                   ARecvErr 0 EEOF; ATrigger 0; AExit 0; ARestart 0] = Some s /\
@@ -1424,8 +1477,8 @@ Qed.
 
 Definition opt_res (r : option res) : res := match r with Some x => x | None => RErr end.
 
-Theorem entry_points_report b n acts s p msgs o :
-  run (init b n) acts = Some s -> listening s p = false ->
+Theorem entry_points_report f b n acts s p msgs o :
+  run (init f b n) acts = Some s -> listening s p = false ->
   (forall c x, In c (table s p) -> conns s c = Some x -> sink x = false) ->
   (table s p = [] \/ tcp s = false \/ o = false) ->
   let r := opt_res (snd (send_call s p msgs o)) in
@@ -1440,7 +1493,7 @@ Theorem entry_points_report b n acts s p msgs o :
   (forall self, self <> p -> snd (broadcast unit snd_ tt self [self; p]) = [p]).
 Proof.
   intros R Hl Hns Hq r snd_.
-  destruct (send_fails_when_nothing_listens _ _ _ _ _ msgs o R Hl Hns Hq) as (s' & Hs & _).
+  destruct (send_fails_when_nothing_listens _ _ _ _ _ _ msgs o R Hl Hns Hq) as (s' & Hs & _).
   assert (Hr : r = RErr) by (unfold r; rewrite Hs; reflexivity).
   unfold snd_. rewrite Hr. cbn. repeat split; auto.
   intros self Hne. unfold broadcast. cbn. rewrite Nat.eqb_refl. cbn.
@@ -1449,10 +1502,10 @@ Qed.
 
 (* F10: the pinned Context.SendRaw reports success where the router reported the failure *)
 Theorem sendraw_refuted :
-  exists s r, run (init false 0) [ACrash 0] = Some s /\ listening s 0 = false /\ table s 0 = [] /\
+  exists s r, run (init false false 0) [ACrash 0] = Some s /\ listening s 0 = false /\ table s 0 = [] /\
               snd (send_call s 0 [1] false) = Some r /\ r = RErr /\ send_raw false r = ROk.
 Proof.
-  exists (st_of (run (init false 0) [ACrash 0])), RErr.
+  exists (st_of (run (init false false 0) [ACrash 0])), RErr.
   repeat split; vm_compute; reflexivity.
 Qed.
 
@@ -1464,20 +1517,20 @@ Definition repaired_history : list action :=
    ARecvErr 0 EEOF; ATrigger 0; AExit 0; ARestart 0].
 
 Example resend_hypotheses_example :
-  exists s, run (init false 1) repaired_history = Some s /\ closed s = false /\ listening s 0 = true /\
+  exists s, run (init true false 1) repaired_history = Some s /\ closed s = false /\ listening s 0 = true /\
             (forall c x, In c (table s 0) -> conns s c = Some x -> sink x = false) /\ tcp s = false.
 Proof.
-  exists (st_of (run (init false 1) repaired_history)).
+  exists (st_of (run (init true false 1) repaired_history)).
   split; [vm_compute; reflexivity|]. split; [vm_compute; reflexivity|]. split; [vm_compute; reflexivity|].
   split; [|vm_compute; reflexivity].
-  intros c x Hin Hx. assert (Ht : table (st_of (run (init false 1) repaired_history)) 0 = [1]) by (vm_compute; reflexivity).
+  intros c x Hin Hx. assert (Ht : table (st_of (run (init true false 1) repaired_history)) 0 = [1]) by (vm_compute; reflexivity).
   rewrite Ht in Hin. destruct Hin as [<-|[]]. vm_compute in Hx. inversion Hx. reflexivity.
 Qed.
 
 Example table_clean_example :
-  exists s x, run (init false 1) repaired_history = Some s /\ conns s 0 = Some x /\ loop x = LExited true /\ nh s = 1.
+  exists s x, run (init true false 1) repaired_history = Some s /\ conns s 0 = Some x /\ loop x = LExited true /\ nh s = 1.
 Proof.
-  exists (st_of (run (init false 1) repaired_history)). eexists.
+  exists (st_of (run (init true false 1) repaired_history)). eexists.
   split; [vm_compute; reflexivity|]. split; [vm_compute; reflexivity|]. split; vm_compute; reflexivity.
 Qed.
 
@@ -1485,24 +1538,24 @@ Definition crashed_history : list action :=
   [ASpawn 0 [1]; AStep 0 false; AStep 0 false; AStep 0 false; AStep 0 false; AStep 0 false; AStep 0 false; ACrash 0].
 
 Example send_fails_hypotheses_example :
-  exists s, run (init false 1) crashed_history = Some s /\
+  exists s, run (init true false 1) crashed_history = Some s /\
             listening s 0 = false /\ table s 0 = [0] /\ tcp s = false /\
             (forall c x, In c (table s 0) -> conns s c = Some x -> sink x = false).
 Proof.
-  exists (st_of (run (init false 1) crashed_history)). split; [vm_compute; reflexivity|].
+  exists (st_of (run (init true false 1) crashed_history)). split; [vm_compute; reflexivity|].
   split; [vm_compute; reflexivity|]. split; [vm_compute; reflexivity|]. split; [vm_compute; reflexivity|].
   intros c x Hin Hx.
-  assert (Ht : table (st_of (run (init false 1) crashed_history)) 0 = [0]) by (vm_compute; reflexivity).
+  assert (Ht : table (st_of (run (init true false 1) crashed_history)) 0 = [0]) by (vm_compute; reflexivity).
   rewrite Ht in Hin. destruct Hin as [<-|[]]. vm_compute in Hx. inversion Hx. reflexivity.
 Qed.
 
 Definition stale_history : list action := [AAccept 3; ALaunchInc 0; ACrash 3].
 
 Example stale_entry_example :
-  exists s x, run (init true 2) stale_history = Some s /\
+  exists s x, run (init true true 2) stale_history = Some s /\
               In 0 (table s 3) /\ conns s 0 = Some x /\ loop x = LRun /\ alive x = false.
 Proof.
-  exists (st_of (run (init true 2) stale_history)). eexists. split; [vm_compute; reflexivity|].
+  exists (st_of (run (init true true 2) stale_history)). eexists. split; [vm_compute; reflexivity|].
   split; [vm_compute; auto|]. split; [vm_compute; reflexivity|]. split; vm_compute; reflexivity.
 Qed.
 
